@@ -55,6 +55,15 @@ func runC12(c *Ctx, idx int) {
 		if r.Intn(4) == 0 {
 			o.flagForward = pick(r, 0.2, 1.0) // forward links which merely carry the recurrent label: still a feed-forward network
 		}
+		if i%50 != 7 && r.Intn(6) == 0 {
+			// outputs feeding later outputs (add-link joins any two neurons), now and then in a network without hidden neurons
+			o.outToOut = 0.5
+			o.maxOut = 3
+			if r.Intn(3) == 0 {
+				o.maxHid = 0
+			}
+			c.Count("nets.outputs_feeding_outputs", 1)
+		}
 		s := genNet(r, o)
 		in := randInputs(r, s.NIn, 2)
 		viaGenesis := r.Intn(2) == 0
@@ -84,7 +93,20 @@ func runC12(c *Ctx, idx int) {
 		}
 		c12Net(c, s, in, viaGenesis)
 	}
+	if c12K2Witness != nil && !c.Violated() {
+		// known finding K2 (DESIGN.md section 3.5), reported once per case after everything else was checked
+		w := c12K2Witness
+		c12K2Witness = nil
+		c.Violate("solver-value/std_recursive", w, "Network.RecursiveSteps on a network without hidden neurons whose outputs feed outputs activates for %v step(s), the longest path has %v links: returned %v, topological evaluation gives %v",
+			w["depth_reported"], w["longest_path"], w["got"], w["expected"])
+	}
+	c12K2Witness = nil
 }
+
+const keyK2 = "network_recursive_steps:depth-quick-case:no-hidden-neurons:outputs-feed-outputs"
+
+// c12K2Witness holds the first reproduced witness of known finding K2 of the running case
+var c12K2Witness map[string]interface{}
 
 func c12Net(c *Ctx, s *netSpec, in []float64, viaGenesis bool) {
 	want, _, sums := s.eval(in)
@@ -146,17 +168,48 @@ func c12Net(c *Ctx, s *netSpec, in []float64, viaGenesis bool) {
 		return
 	}
 	// (b) standard network, recursive steps
+	k2shape := false
+	if s.NHid == 0 {
+		for _, e := range s.Edges {
+			k2shape = k2shape || (s.isOutput(e.From) && s.isOutput(e.To) && !e.Back)
+		}
+	}
 	net = build()
-	if L >= 2 && c.G.Intn(3) == 0 {
+	if k2shape {
+		// known finding K2: the depth computation answers 1 for every network without hidden neurons (its own test suite pins
+		// that for a fixture whose outputs feed each other), so Network.RecursiveSteps stops short of the longest path. The
+		// finding is attributed only if it reproduces: the reported depth is below the longest path and the value is wrong.
+		depth, derr := net.MaxActivationDepth()
+		_ = net.LoadSensors(in)
+		_, rerr := net.RecursiveSteps()
+		got := net.ReadOutputs()
+		c.Count("solver.std_recursive_on_hiddenless_chained_outputs", 1)
+		if rerr != nil || !vecClose(got, want, 1e-9, 1e-12) {
+			if derr == nil && rerr == nil && depth < L {
+				if c12K2Witness == nil {
+					w := detail(got)
+					w["key"], w["depth_reported"] = keyK2, depth
+					c12K2Witness = w
+				}
+			} else {
+				check("std_recursive", got, rerr)
+				return
+			}
+		}
+		net = build()
+	}
+	if !k2shape && L >= 2 && c.G.Intn(3) == 0 {
 		// the way evaluators bound the work: a depth query with a cap, which is hit here; the network is used afterwards
 		if _, derr := net.MaxActivationDepthWithCap(1 + c.G.Intn(L-1)); derr != nil {
 			c.Count("solver.capped_depth_query_hit_the_cap_before_recursive", 1)
 		}
 	}
-	_ = net.LoadSensors(in)
-	_, err = net.RecursiveSteps()
-	if !check("std_recursive", net.ReadOutputs(), err) {
-		return
+	if !k2shape {
+		_ = net.LoadSensors(in)
+		_, err = net.RecursiveSteps()
+		if !check("std_recursive", net.ReadOutputs(), err) {
+			return
+		}
 	}
 	// (c) fast solver, forward
 	fast, err := build().FastNetworkSolver()
@@ -305,6 +358,12 @@ func c12Net(c *Ctx, s *netSpec, in []float64, viaGenesis bool) {
 // feed-forward function of the vector loaded last.
 func c12Sequence(c *Ctx, s *netSpec, build func() *network.Network, steps int, detail func([]float64) map[string]interface{}) bool {
 	r := c.G
+	k2shape := false // (known finding K2: the standard solver's recursive mode is left out for this shape, see c12Net)
+	if s.NHid == 0 {
+		for _, e := range s.Edges {
+			k2shape = k2shape || (s.isOutput(e.From) && s.isOutput(e.To) && !e.Back)
+		}
+	}
 	fastS, err := build().FastNetworkSolver()
 	if err != nil {
 		return true
@@ -365,7 +424,7 @@ func c12Sequence(c *Ctx, s *netSpec, build func() *network.Network, steps int, d
 			case mode == 0:
 				op = "forward"
 				_, aerr = inst.solver.ForwardSteps(steps)
-			case mode == 1:
+			case mode == 1 && !(k2shape && inst.name == "std"):
 				op = "recursive"
 				_, aerr = inst.solver.RecursiveSteps()
 			default:
